@@ -64,17 +64,20 @@ theorem eq_of_key_eq {l : List Stream} (hn : (l.map (·.key)).Nodup) {x y : Stre
       · exact absurd (by rw [h, hyz]) (hn.1 x hxl)
       · exact ih hn.2 hxl hyl
 
-/-- the same receive-side content (key, receive `FlowControl`, `in_flight_recv_data`), and a closed
-    stream stays closed -/
+/-- the same receive-side content (key, receive `FlowControl`, `in_flight_recv_data`), a closed
+    stream stays closed, a dropped `RecvStream` stays dropped -/
 structure SameR (x x' : Stream) : Prop where
   key : x'.key = x.key
   flow : x'.recvFlow = x.recvFlow
   infl : x'.inFlightRecvData = x.inFlightRecvData
   closed : x.state.isClosed = true → x'.state.isClosed = true
+  /-- `is_recv` (the `RecvStream` handle exists) only ever goes from `true` to `false` -/
+  recv : x'.isRecv = true → x.isRecv = true
 
-theorem SameR.refl (x : Stream) : SameR x x := ⟨rfl, rfl, rfl, id⟩
+theorem SameR.refl (x : Stream) : SameR x x := ⟨rfl, rfl, rfl, id, id⟩
 theorem SameR.trans {x y z : Stream} (h1 : SameR x y) (h2 : SameR y z) : SameR x z :=
-  ⟨h2.key.trans h1.key, h2.flow.trans h1.flow, h2.infl.trans h1.infl, fun h => h2.closed (h1.closed h)⟩
+  ⟨h2.key.trans h1.key, h2.flow.trans h1.flow, h2.infl.trans h1.infl, fun h => h2.closed (h1.closed h),
+   fun h => h1.recv (h2.recv h)⟩
 
 /-- the receive `FlowControl` of `Stream::new(_, _, init)` -/
 def newRecvFlow (init : Nat) : FlowControl :=
@@ -274,6 +277,25 @@ theorem modStreamW_ext (s : Streams) (id : Nat) (f : Stream → Stream × List S
     have hxk := (get?_mem hx).2
     exact (setStream_ext s x (f x).1 (by rw [hxk]; exact hx) (h x hx)).trans (wake_ext _ _)
   · exact panic_ext _ _
+
+/-- `setStream` of a new version of `s.stream id` (whether the key exists or not) -/
+theorem setStream_stream_ext (s : Streams) (id : Nat) (x' : Stream) (h : SameR (s.stream id) x') :
+    Ext s (s.setStream x') := by
+  cases hg : s.store.get? id with
+  | some x =>
+    have hx : s.stream id = x := by unfold Streams.stream; rw [hg]; rfl
+    rw [hx] at h
+    exact setStream_ext s x x' (by rw [(get?_mem hg).2]; exact hg) h
+  | none =>
+    have hk : (s.stream id).key = id := by unfold Streams.stream; rw [hg]; rfl
+    refine Ext.of_map (fun y => if y.key == x'.key then x' else y) rfl rfl rfl ?_ rfl rfl rfl
+    intro _ y hy
+    have hne : y.key ≠ x'.key := by
+      intro hc
+      have := List.find?_eq_none.1 (show s.store.slab.find? (·.key == id) = none from hg) y hy
+      rw [h.key, hk] at hc
+      simp [hc] at this
+    simp [hne, SameR.refl]
 
 /-- `s.stream id` is the entry `get?` finds, when there is one -/
 theorem stream_eq_of_get? {s : Streams} {id : Nat} {x : Stream} (h : s.store.get? id = some x) :
